@@ -4,7 +4,8 @@ import random
 KEYS_TEXT = [[1] + [ord(c) for c in s] for s in
              ['a', 'b', 'c', 'ab', 'b-', 'zz', 'k1', 'k2', 'k3', 'k4', 'k5', 'k6',
               'a-000000000000000', 'a-999999999999999', 'a-5', 'a-500000000000007']]
-KEYS_INT = [[0, 0, 0], [0, 99999999, 9999999], [0, 0, 5], [0, 0, 77], [0, 50000000, 3], [0, -1, 9999990], [0, 123, 4567]]
+KEYS_INT = [[0, 0, 0], [0, 99999999, 9999999], [0, 0, 5], [0, 0, 1],      # (1 == True in Python: two keys for the cache)
+            [0, 0, 77], [0, 50000000, 3], [0, -1, 9999990], [0, 123, 4567]]
 KEYS_COMP = [[2, i] for i in range(1, 7)]
 
 
